@@ -122,8 +122,8 @@ def opkey(l):
 def tie(ctx):
     rng = random.Random(ctx.seed * 3167 + 1504)
     schemas = K.rotate(SCHEMAS, ctx.seed, 7 if ctx.tier == "thorough" else 3)
-    per = 24 if ctx.tier == "thorough" else 6
-    nadv = 70 if ctx.tier == "thorough" else 40
+    per = 60 if ctx.tier == "thorough" else 6
+    nadv = 90 if ctx.tier == "thorough" else 40
     scripts = []
     hid = 0
     for s in schemas:
